@@ -32,7 +32,34 @@ SplitABM(d, f, t, out) ==
       L == LeafSeq(out) IN
   [ok |-> Len(A) + Len(B) <= Len(L) /\ SubSeq(L, 1, Len(A)) = A /\ Suffix(L, Len(B)) = B,
    M |-> IF Len(A) + Len(B) <= Len(L) THEN SubSeq(L, Len(A) + 1, Len(L) - Len(B)) ELSE <<>>]
+(* the elements of L left over after deleting a leftmost (dir = 1) or rightmost (dir = -1)
+   embedding of S in L; [ok, rest] *)
+RECURSIVE LeftoverL(_, _)
+LeftoverL(L, S) ==
+  IF S = <<>> THEN [ok |-> TRUE, rest |-> L]
+  ELSE IF L = <<>> THEN [ok |-> FALSE, rest |-> <<>>]
+  ELSE IF Head(L) = Head(S) THEN LeftoverL(Tail(L), Tail(S))
+  ELSE LET r == LeftoverL(Tail(L), S) IN [ok |-> r.ok, rest |-> <<Head(L)>> \o r.rest]
+LeftoverR(L, S) == LET r == LeftoverL(Rev(L), Rev(S)) IN [ok |-> r.ok, rest |-> Rev(r.rest)]
 LeafKey(x) == <<x.t, x.a>>
+(* Relaxed form of the same contract, used when content of the range that cannot be deleted
+   (a required leaf) stays and content after the range is pulled in front of it: the leaves
+   before and after the range are all present in order (A \o B embeds in L) and what is left
+   over comes from the payload in order, from generatable fillers, or - non-text leaves only -
+   from the range itself. *)
+RelaxedOK(d, f, t, out, payload) ==
+  LET A == LeafSeq(SubSeq(d, 1, f))
+      B == LeafSeq(SubSeq(d, t + 1, Len(d)))
+      L == LeafSeq(out)
+      inside == SubSeq(d, f + 1, t)
+      good(rest) == /\ IsSubseq(TextOf(rest), TextOf(payload))
+                    /\ \A i \in 1..Len(rest) : rest[i].k = "l" =>
+                          (Generatable(rest[i].t)
+                           \/ (\E j \in 1..Len(payload) : (payload[j].k = "l" /\ LeafKey(payload[j]) = LeafKey(rest[i])))
+                           \/ (\E j \in 1..Len(inside) : (inside[j].k = "l" /\ LeafKey(inside[j]) = LeafKey(rest[i]))))
+      l == LeftoverL(L, A \o B)
+      r == LeftoverR(L, A \o B) IN
+  (l.ok /\ good(l.rest)) \/ (r.ok /\ good(r.rest))
 MiddleOK(M, payload) ==
   \* characters are an in-order subsequence of the payload's text; other leaves come from the
   \* payload or are filler nodes the schema can generate
